@@ -129,6 +129,16 @@ def o_add(ctx, case):
     ctx.check(want == to_lib(_pt(a + b)), "add", "model", case, "model inconsistent") if False else None
     got2 = tuple(m.add(to_lib(Qm), to_lib(Pm)))
     ctx.check(got2 == got, "add", "commutativity", case, "add(P,Q) != add(Q,P)")
+    # the same points as other sequence types (a point decoded from JSON is a list): same sum
+    for ca, cb in ((tuple, list), (list, tuple), (list, list)):
+        try:
+            g3 = tuple(m.add(ca(to_lib(Pm)), cb(to_lib(Qm))))
+        except TypeError:
+            ctx.label("B:add:list_points_refused")      # refusing non-tuples would be legitimate
+            continue
+        ctx.check(g3 == want, "add", "container_type", case,
+                  f"add({ca.__name__} P, {cb.__name__} Q) = {g3}, expected {want}")
+    ctx.label("B:add:mixed_containers")
     nt_ = False
     if a == 0 or b == 0:
         ctx.label("B:add:identity"); nt_ = True
